@@ -28,6 +28,8 @@ CONSTANTS
   TrampFlushed = TRUE
   Regen = TRUE
   SavedFrom = "install"
+  ForeignReuse = FALSE
+  AllocAt = "hint"
   MaxLives = 2
   MaxInstalls = 2
   MaxCtr = 2
